@@ -69,6 +69,9 @@ def run_driver(exe, mode, ncases, outdir, args=(), env_extra=None, workers=NCPU,
     return ranges
 
 
+_RERUN_BUDGET = [8]     # re-runs left in this check process (a tree on which everything hangs must not cost 8 x 4 x time-out per workload)
+
+
 def _rerun_watchdogs(exe, mode, outdir, args, env, ranges, limit=6):
     """A case that hit the wall-clock backstop is run once more, alone on the machine's idle cores and with 4x the time.
     If it finishes, its verdict replaces the time-out (the first one was load).  If it times out again it is reported as a
@@ -87,10 +90,11 @@ def _rerun_watchdogs(exe, mode, outdir, args, env, ranges, limit=6):
         changed = False
         for li, line in enumerate(lines):
             parts = line.split("\t")
-            if len(parts) < 2 or parts[1] not in ("watchdog", "skipped_after_watchdogs") or done >= limit:
+            if len(parts) < 2 or parts[1] not in ("watchdog", "skipped_after_watchdogs") or done >= limit or _RERUN_BUDGET[0] <= 0:
                 continue
             case = int(parts[0])
             done += 1
+            _RERUN_BUDGET[0] -= 1
             for suf in ("log", "err"):
                 src = os.path.join(outdir, "case_%d.%s" % (case, suf))
                 if os.path.exists(src):
